@@ -303,7 +303,13 @@ const sec = int64(time.Second)
 
 // durations inside the modelled domain of uint32(d.Seconds()): 0 <= d, (d < 2^24 s or whole seconds), d/1s < 2^32
 func (g *Gen) dur() int64 {
-	switch g.R.Intn(12) {
+	switch g.R.Intn(15) {
+	case 12:
+		return int64(g.R.Intn(5001)) * int64(time.Millisecond) // a whole number of milliseconds
+	case 13:
+		return int64(g.R.Intn(5001))*int64(time.Millisecond) + int64(g.R.Intn(1000000)) // not a multiple of the unit
+	case 14:
+		return (int64(1)<<31 - 2 + int64(g.R.Intn(4))) * []int64{int64(time.Millisecond), sec}[g.R.Intn(2)] // around 2^31 units
 	case 0:
 		return 0
 	case 1:
